@@ -58,9 +58,9 @@ TEXT = {
  "C17": ("exploration", "strict SMT-LIB reader + read-back run validated by Script_Trace",
          "Printed models, values (and echoed terms), full cores, interpolants must read; the printed model is given back to a fresh solver with the assertions.",
          "Dumped queries (:dump-query) are not covered.", "6/C17"),
- "C27": ("model_checking", "IntRound.tla identities checked by TLC on a box; boxed LIA/IDL scripts decided exactly by the kernel's grid",
+ "C27": ("model_checking", "IntRound.tla identities checked by TLC on a box and, for every integer value (unbounded), symbolically by Apalache (spec/apalache/IntRoundU.tla); boxed LIA/IDL scripts decided exactly by the kernel's grid",
          "div/mod of both divisor signs (folding and axioms), strict-bound tightening, gcd normalisation, negated difference constraints.",
-         "Identities are checked on -24..24, not for unbounded integers.", "6/C27"),
+         "Divisors and coefficients range over -7..7 (the dividend, bounds and variable values are unbounded in the Apalache check).", "6/C27"),
  "C14": ("model_checking", "Terms!Eval on a grid enumerated by TLC; TermStore.tla design model; Terms_Trace over terms_driver",
          "Every constructor call of Logic/ArithLogic (Boolean connectives, ite, =, distinct, +, -, *, /, div, mod, comparisons, select, store, UF) with the returned term; "
          "TLC searches a grid of interpretations (variables, two interpretations of each function symbol, array values) for a point where result and op(args) differ.",
